@@ -24,6 +24,25 @@ type smap struct {
 	anyOrd  bool // explore all iteration orders
 	havoc   *havocInfo
 	absent  []value
+	guard   *value // address of the sync.(RW)Mutex that must be held on every access (verifGuard)
+	gname   string
+}
+
+// checkGuard implements the lock-discipline obligation registered with verifGuard.
+func (m *smap) checkGuard(write bool) {
+	if m == nil || m.guard == nil || R.initPkg != nil {
+		return
+	}
+	w, rd := R.mutexHeld(m.guard)
+	if w || (!write && rd) {
+		return
+	}
+	kind := "read"
+	if write {
+		kind = "write"
+	}
+	R.violation("race", "unsynchronised "+kind+" of "+m.gname, R.curFuncName(), "map accessed without holding its mutex", nil)
+	panic(runAbort{"lock discipline"})
 }
 
 // havocInfo makes the map an arbitrary unknown map: a key that is not found
@@ -115,6 +134,7 @@ func (m *smap) lookup(k value) (value, bool) {
 	if m == nil {
 		return nil, false
 	}
+	m.checkGuard(false)
 	if e := m.find(k); e != nil {
 		return e.v, true
 	}
@@ -148,6 +168,7 @@ func (m *smap) add(k, v value) *mentry {
 }
 
 func (m *smap) insert(k, v value) {
+	m.checkGuard(true)
 	if e := m.find(k); e != nil {
 		e.v = v
 		return
@@ -174,6 +195,7 @@ func (m *smap) delete(k value) {
 	if m == nil {
 		return
 	}
+	m.checkGuard(true)
 	if e := m.find(k); e != nil {
 		m.remove(e)
 	}
@@ -186,6 +208,7 @@ func (m *smap) len() int {
 	if m == nil {
 		return 0
 	}
+	m.checkGuard(false)
 	if m.havoc != nil {
 		panic(engineErr{"len of havoc map"})
 	}
@@ -202,6 +225,7 @@ func (m *smap) iter() *smapIter {
 	if m == nil {
 		return &smapIter{}
 	}
+	m.checkGuard(false)
 	if m.havoc != nil {
 		panic(engineErr{"range over havoc map"})
 	}
